@@ -211,18 +211,26 @@ static void report_violation(const unsigned char *s, size_t n, const size_t *chu
   vf_dump_stats(stdout);
 }
 
+extern void vq_remote_wshort(unsigned seed);
 static int run_case(const unsigned char *s, size_t n, const size_t *chunks, size_t nchunks, int mode)
 {
   int ok;
 #if PROP == 5
   ok = mode == 2 ? check_roundtrip(s, n) : check_c05(s, n, chunks, nchunks);
 #else
+  if (mode == 4) {
+    /* every write to the peer is cut short (1..7 bytes taken, seeded by chunks[0]): the bytes on the wire must be the same */
+    vq_remote_wshort(nchunks ? (unsigned)chunks[0] : 1u);
+    ok = check_c06(s, n, 0, 0, -1);
+    vq_remote_wshort(0);
+  } else {
   ok = check_c06(s, n, chunks, nchunks, mode == 3 ? (int)(nchunks ? chunks[0] : 0) : -1);
   if (mode == 3) nchunks = 0;
+  }
 #endif
   if (nontrivial(s, n)) ++vf_nontrivial;
   vf_sample(s, n);
-  if (!ok) { report_violation(s, n, chunks, nchunks, mode == 2 ? "roundtrip" : mode == 3 ? "readerror" : "stream"); return 0; }
+  if (!ok) { report_violation(s, n, chunks, nchunks, mode == 2 ? "roundtrip" : mode == 3 ? "readerror" : mode == 4 ? "shortwrite" : "stream"); return 0; }
   return 1;
 }
 
@@ -276,6 +284,7 @@ int main(int argc, char **argv)
 #else
       if (!run_case(s, n, ch, nc, 0)) return 1;
       if (n && c % 16 == 0) { size_t e[1]; e[0] = vf_rand() % n; if (!run_case(s, n, e, 1, 3)) return 1; }
+      if (c % 8 == 3) { size_t e[1]; e[0] = 1 + vf_rand() % 100000; if (!run_case(s, n, e, 1, 4)) return 1; }
 #endif
     }
     vf_dump_stats(stdout);
